@@ -8,6 +8,8 @@
                                    |{"kind":"ionice","ioclass":i|null,"value":i|null}
                                    |{"kind":"cpu_affinity","cpus":[i]|null}
                                    |{"kind":"rlimit","res":i,"limits":[i]|null}}
+        optional in req: "value_form"/"ioclass_form"/"res_form": "int"|"enum"|"bool"; "cpus_form": "list"|"tuple"|"set"|
+        "range"|"iterator"; "limits_form": "tuple"|"list"|"iterator"   (the arguments as Python objects: Model §6)
         {"op":"pack","cls":n,"data":n} / {"op":"unpack","v":n}       (native-layer packing only)
    out: {"model":{"out":…,"procs":[…],"log":[…]}, "spec": null | {"out":…,"procs":[…],"log":[…]}}
 -/
@@ -39,16 +41,43 @@ def parseProc (j : Json) : R (Nat × PState) := do
   pure (pid, { nice := nice, ioprio := ioprio, affinity := aff, cpuset := cs,
                rlimits := fun r => rl.getD r (0, 0) })
 
-def parseReq (j : Json) : R Req := do
+/-- an int-like argument in the form named by the optional field `<key>_form` ("int" when absent) -/
+def scalarOf (j : Json) (key : String) (v : Int) : R Scalar := do
+  match (← optF asStr j (key ++ "_form")).getD "int" with
+  | "int" => pure (.int v)
+  | "enum" => pure (.enum v)
+  | "bool" => if v = 0 then pure (.bool false) else if v = 1 then pure (.bool true) else .error "bool form needs 0 or 1"
+  | f => .error s!"unknown scalar form {f}"
+
+def optScalar (j : Json) (key : String) : R (Option Scalar) := do
+  match ← optF asInt j key with
+  | none =>
+    if (← optF asStr j (key ++ "_form")).isSome then .error s!"{key}_form given for None" else pure none
+  | some v => pure (some (← scalarOf j key v))
+
+def cpuFormOf : String → R CpuForm
+  | "list" => pure .list | "tuple" => pure .tuple | "set" => pure .set | "range" => pure .range
+  | "iterator" => pure .iterator | f => .error s!"unknown cpus form {f}"
+
+def limFormOf : String → R LimForm
+  | "tuple" => pure .tuple | "list" => pure .list | "iterator" => pure .iterator
+  | f => .error s!"unknown limits form {f}"
+
+def parseReq (j : Json) : R PyReq := do
   let kind ← strF j "kind"
   if kind == "nice" then
-    pure (.nice (← optF asInt j "value"))
+    pure (.nice (← optScalar j "value"))
   else if kind == "ionice" then
-    pure (.ionice (← optF asInt j "ioclass") (← optF asInt j "value"))
+    pure (.ionice (← optScalar j "ioclass") (← optScalar j "value"))
   else if kind == "cpu_affinity" then
-    pure (.cpuAffinity (← optF (asList asInt) j "cpus"))
+    match ← optF (asList asInt) j "cpus" with
+    | none => pure (.cpuAffinity none)
+    | some l => pure (.cpuAffinity (some (← cpuFormOf ((← optF asStr j "cpus_form").getD "list"), l)))
   else if kind == "rlimit" then
-    pure (.rlimit (← intF j "res") (← optF (asList asInt) j "limits"))
+    let res ← scalarOf j "res" (← intF j "res")
+    match ← optF (asList asInt) j "limits" with
+    | none => pure (.rlimit res none)
+    | some l => pure (.rlimit res (some (← limFormOf ((← optF asStr j "limits_form").getD "tuple"), l)))
   else .error s!"unknown request kind {kind}"
 
 def errnoName : Errno → String
@@ -57,6 +86,7 @@ def errnoName : Errno → String
 def jExc : Exc → Json
   | .valueError => jObj [("kind", "exc"), ("exc", "ValueError")]
   | .overflowError => jObj [("kind", "exc"), ("exc", "OverflowError")]
+  | .typeError => jObj [("kind", "exc"), ("exc", "TypeError")]
   | .osError e => jObj [("kind", "exc"), ("exc", "OSError"), ("errno", Json.str (errnoName e))]
   | .osRaw n => jObj [("kind", "exc"), ("exc", "OSError"), ("errno", jNat n)]
   | .accessDenied p => jObj [("kind", "exc"), ("exc", "AccessDenied"), ("pid", jNat p)]
@@ -114,13 +144,13 @@ def handle (d : DSt) (j : Json) : R (DSt × Json) := do
     -- the log is per call: start each call with an empty one
     let k0 : Kernel := { d.k with log := [] }
     let x : Ctx := { errnoIn := (← optF asNat j "errno").getD 0, statusMask := ← optF (asList asNat) j "status_mask" }
-    let (o, k') := stepX cfg k0 pid x req
+    let (o, k') := stepPy cfg k0 pid x req
     let spec : Json :=
       if pid = 0 then Json.null
       else match k0.procs pid with
         | none => Json.null
         | some st =>
-          match Spec.expect k0 pid st req with
+          match Spec.expectPy k0 pid st req with
           | .unconstrained => Json.null
           | .promised so sk => jResult d.pids so sk
     return (⟨k', d.pids⟩, jObj [("model", jResult d.pids o k'), ("spec", spec)])
